@@ -303,15 +303,23 @@ class Result:
         self.undelivered = 0
 
 
-def run_parent(solvers, mode, var, cache, faults, prefix, pickling) -> Result:
+def run_parent(solvers, mode, var, cache, faults, prefix, pickling, reuse=False) -> Result:
     sched = Sched(prefix)
     world = World(len(solvers), cache, faults, sched, pickling)
-    CURRENT.update(world=world, next_proc=0, launches=[], queues=[])
     real_P, real_Q = MS.Process, MS.Queue
     MS.Process, MS.Queue = FakeProcess, FakeQueue
     res = Result()
     try:
         mp = MS.MultiprocessingSolver(solvers, log_level="ERROR")
+        if reuse:
+            # the same MultiprocessingSolver object has already been used for one complete, fault-free run
+            CURRENT.update(world=World(len(solvers), cache, [], Sched([]), pickling), next_proc=0, launches=[], queues=[])
+            if mode == "solve":
+                res.first_run = [tuple(int(v) for v in sol) for sol in mp.solve()]
+            else:
+                r0 = mp.minimize(var) if mode == "min" else mp.maximize(var)
+                res.first_run = None if r0 is None else tuple(int(v) for v in r0)
+        CURRENT.update(world=world, next_proc=0, launches=[], queues=[])
         try:
             if mode == "solve":
                 for sol in mp.solve():
